@@ -6,7 +6,7 @@
 //@fn serialize_to_vec
 //@head{
         requires self.vvalid()
-        ensures final(dst)@ == old(dst)@ + self.vser_spec()
+        ensures final(dst)@ =~= old(dst)@ + self.vser_spec()
 //@}
 //@fn deserialize_from_slice
 //@ret r
